@@ -783,3 +783,5 @@ ASSUMPTIONS = ["PY-FLOAT-REAL: floats in V are finite reals (NaN/inf not modelle
                "instances of registered dataclasses hold, in each field, a value inhabiting the declared hint (generously: None anywhere, any scalar under a "
                "primitive hint, subclasses under a class hint, tuples/sets in list slots) -- this is the quantifier of the property",
                "EXC-ANY for library calls inside the decoder; recorded exclusion F6 (has_marker_key) via known_findings.json only"]
+
+REPLAY_UNKNOWN = True    # undecided / out-of-subset items are searched natively (replay) before being reported UNDECIDED
